@@ -37,7 +37,15 @@ def setup(T, NODE, CTX, variant, no_copy=()):
         ns = {}
         if dialect is not None:
             ns["Config"] = type("Config", (), {"dialect": dialect})
-        W = dataclasses.make_dataclass("W", [("x", T)], bases=(DataClassDictMixin,), namespace=ns)
+        bases = (DataClassDictMixin,)
+        if variant == "mpfield":
+            # a format mixin: the same class also gets methods compiled under the format's own dialect (whose
+            # no_copy_collections differ); to_dict must still follow the default dialect
+            from mashumaro.mixins.msgpack import DataClassMessagePackMixin
+            from mashumaro.mixins.orjson import DataClassORJSONMixin
+
+            bases = (DataClassMessagePackMixin, DataClassORJSONMixin)
+        W = dataclasses.make_dataclass("W", [("x", T)], bases=bases, namespace=ns)
         S.encode = lambda w: w.to_dict()
         S.decode = W.from_dict
         S.wrap = lambda v: W(x=v)
